@@ -410,6 +410,13 @@ SetModeErr(a) ==
                   ELSE readOnly' = VolStatus(cm).ro /\ rwCount' = VolStatus(cm).n
                /\ UNCHANGED <<checkpoint, reg, maxRev, signalled, pcAdd, env, acked, nextW, calls>>
 
+\* PUT /v1/replicas/{id} with anything but RW / ERR (WO, a case variant, nothing): refused, no effect
+SetModeInvalid(a, m) ==
+    /\ Called("SetMode", [a |-> a, mode |-> m])
+    /\ m \notin {"RW", "ERR"}
+    /\ served' = "" /\ sig' = <<>> /\ res' = "refused"
+    /\ UNCHANGED <<ctl, env, acked, nextW, calls>>
+
 \* the monitoring goroutine of a closed / failed backend finally runs: it
 \* removes whatever is attached under that address
 MonitorRun(a) ==
